@@ -18,8 +18,9 @@ import (
 )
 
 // classify an error returned by a public method on a source of srcLen bytes:
-//   ok | L<code>@<pos>  library error with position inside the source |  V<code> library validation error without position
-//   BADPOS(<code>@<pos>/<len>) | FOREIGN(<type>) | ERRORPANIC(<code>: <panic>)  -- violations of C07
+//
+//	ok | L<code>@<pos>  library error with position inside the source |  V<code> library validation error without position
+//	BADPOS(<code>@<pos>/<len>) | FOREIGN(<type>) | ERRORPANIC(<code>: <panic>)  -- violations of C07
 func classify(err error, srcLen int) string {
 	if err == nil {
 		return "ok"
@@ -90,9 +91,10 @@ func call(name string, srcLen int, f func() error) (res string) {
 }
 
 // fuzzapi line:  <kind> <hex source> [<hex second source>]
-//   schema S [D]  : Len, Check, GetAST, UsedUserTypes, Example, Validate(D)   (D defaults to "null")
-//   schemaT S T   : schema S with type @t := T added (AddType), then Check, Validate("1"), Example
-//   enum S, regex S, json S, jsont S (json with trailing characters allowed)
+//
+//	schema S [D]  : Len, Check, GetAST, UsedUserTypes, Example, Validate(D)   (D defaults to "null")
+//	schemaT S T   : schema S with type @t := T added (AddType), then Check, Validate("1"), Example
+//	enum S, regex S, json S, jsont S (json with trailing characters allowed)
 func init() {
 	commands["fuzzapi"] = func(args []string, line string) string {
 		f := strings.Fields(line)
@@ -198,6 +200,20 @@ func fuzzOne(kind string, src, second []byte) string {
 				}
 			}
 			return fmt.Errorf("no EOF after %d lexemes", 4*n+8)
+		}))
+		// a caller that keeps asking after the stream ended (io.EOF or an error) gets an error again, never a panic
+		add(call("LexemesAfterEnd", n, func() error {
+			var last error
+			for i := 0; i < 3; i++ {
+				_, last = d.NextLexeme()
+				if last == nil {
+					return fmt.Errorf("NextLexeme delivers a lexeme after the stream has ended")
+				}
+			}
+			if errors.Is(last, io.EOF) {
+				return nil
+			}
+			return last
 		}))
 	}
 	return strings.Join(out, ";")
